@@ -373,6 +373,10 @@ class Inotify:
                         # The directory arrived from outside the watched tree, or it was
                         # renamed before a watch for its creation could be installed:
                         # there is nothing to re-key, watch it under its new name.
+                        # What the path map still holds at or below that name belongs to a
+                        # directory that left the tree earlier: forget it, a later rename of
+                        # the new directory must not be taken for a rename of the old one.
+                        self._forget_paths(inotify_event.src_path)
                         with contextlib.suppress(OSError):
                             self._add_dir_watch(inotify_event.src_path, self._event_mask, recursive=True)
                     src_path = os.path.join(wd_path, name)
@@ -446,6 +450,13 @@ class Inotify:
         self._wd_for_path[path] = wd
         self._path_for_wd[wd] = path
         return wd
+
+    def _forget_paths(self, path: bytes) -> None:
+        """Drops the path -> watch descriptor entries of ``path`` and of everything below it."""
+        prefix = path + os.path.sep.encode()
+        for _path in self._wd_for_path.copy():
+            if _path == path or _path.startswith(prefix):
+                del self._wd_for_path[_path]
 
     @staticmethod
     def _raise_error() -> None:
